@@ -31,13 +31,13 @@ func init() {
 		ID:    "C06",
 		Level: "exploration",
 		Rule: "signed updates produced by SignEFIVariable under a harness-controlled clock: (names: 25 predefined, A, each of the 95 printable ASCII characters, a 64-character name) x payloads {empty bytes, empty database, 1 hash, 3 hashes, certificate list, raw 1/7/8/4096 bytes} x attribute masks {7, 0x27, 0x67}; " +
-			"all 256 attribute masks x 2 payloads; GUIDs {asymmetric A, asymmetric B, leading-zero fields}; keys RSA-2048 (RSA-4096 on a subset); clock instants {ordinary, 31 Dec 23:59:59, 29 Feb, DST change, year 2040} x zones {UTC, +09:00, -08:00, +05:45, +14:00, -12:00}. " +
+			"all 256 attribute masks x 2 payloads; GUIDs {asymmetric A, asymmetric B, leading-zero fields}; keys RSA-2048 (RSA-4096 on a subset), self-signed and CA-issued (issuer != subject) certificates; clock instants {ordinary, 31 Dec 23:59:59, 29 Feb, DST change, year 2040} x zones {UTC, +09:00, -08:00, +05:45, +14:00, -12:00}. " +
 			"oracle: bytes 0-15 are the EFI_TIME of the instant in UTC with pad/nanosecond/timezone/daylight zero; dwLength = 24 + signature length; revision 0x0200; type 0x0EF1; PKCS7 type GUID in wire order; CertData is a bare SignedData; the rest equals the payload; " +
 			"an independent verifier accepts the detached SHA-256 signature over name(UTF-16LE, unterminated)||GUID||attributes||timestamp||payload and rejects each of: any component changed in one byte, terminator added, components reordered, component dropped; openssl smime -verify agrees on a subset. " +
 			"non-trivial = all clauses evaluated; distinct = distinct (name, GUID, mask, payload, key, instant, zone)",
 		Assumptions: []string{"clock and zone are injected through the vtime shim (time.Now redirected by the overlay)", "names are ASCII (the statement's domain)"},
 		Units: func(tier string) []string {
-			return []string{"names#0", "names#1", "names#2", "names#3", "masks", "guids", "clock", "openssl"}
+			return []string{"names#0", "names#1", "names#2", "names#3", "masks", "guids", "clock", "openssl", "ca-issued"}
 		},
 		Run:    c06Run,
 		Budget: dur(5*time.Minute, 30*time.Minute),
@@ -86,16 +86,20 @@ func utf16Name(s string) []byte {
 
 // c06Check signs one update and applies the whole oracle.
 func c06Check(c *hx.Ctx, name string, guid util.EFIGUID, attrs uint32, pl c06Payload, k int, instant time.Time, sess *ossl.Session) {
+	c06CheckCert(c, name, guid, attrs, pl, k, keys.C(k), instant, sess)
+}
+
+func c06CheckCert(c *hx.Ctx, name string, guid util.EFIGUID, attrs uint32, pl c06Payload, k int, signerCert *x509.Certificate, instant time.Time, sess *ossl.Session) {
 	if !c.Next() {
 		return
 	}
 	vtime.Set(instant)
-	label := fmt.Sprintf("name=%q guid=%s attrs=%#x payload=%s key=k%d instant=%s", name, refFormat(guid), attrs, pl.name, k, instant.Format(time.RFC3339))
+	label := fmt.Sprintf("name=%q guid=%s attrs=%#x payload=%s key=k%d cert=%q instant=%s", name, refFormat(guid), attrs, pl.name, k, signerCert.Subject.CommonName, instant.Format(time.RFC3339))
 	g := guid
 	v := efivar.Efivar{Name: name, GUID: &g, Attributes: attributes.Attributes(attrs)}
 	var out []byte
 	var err error
-	var cert *x509.Certificate = keys.C(k)
+	var cert *x509.Certificate = signerCert
 	if pn := hx.Try(func() {
 		var m efivar.Marshallable
 		_, m, err = signature.SignEFIVariable(v, pl.m, memoSignerFor(k), cert)
@@ -296,6 +300,19 @@ func c06Run(c *hx.Ctx, tier, unit string) {
 				c.Sample(map[string]any{"instant_utc": in.Format(time.RFC3339), "zone": z.String()})
 				c06Check(c, "db", *efivar.Db.GUID, 0x27, pls[3], 1, in.In(z), nil)
 				c06Check(c, "PK", *efivar.PK.GUID, 0x27, pls[4], 1, in.In(z), nil)
+			}
+		}
+	case unit == "ca-issued":
+		// certificates issued by a CA: issuer differs from subject
+		for _, k := range []int{1, 4} {
+			for pi, pl := range pls {
+				if k == 4 && pi%3 != 0 {
+					continue
+				}
+				for _, name := range []string{"db", "KEK", "A"} {
+					c06CheckCert(c, name, gA, 0x27, pl, k, keys.Leaf(k), t0, nil)
+					c06CheckCert(c, name, gA, 0x67, pl, k, keys.Leaf(k), t0, nil)
+				}
 			}
 		}
 	case unit == "openssl":
